@@ -172,6 +172,9 @@ fn controlled_mid_size(ctx: &mut Ctx, prop: &'static str, classes: &'static [&'s
         case.shaped = r.gen_bool(0.3);
         case.spaced = r.gen_bool(0.2);
         case.no_tail = r.gen_bool(0.25);
+        if r.gen_bool(0.2) {
+            case.prior = Some((mask, r.gen_range(1..(1u64 << n))));
+        }
         sampled_schedules(ctx, prop, classes, &case, r, 4, mask != 0);
         ctx.count("mid_size_graph_cases", 1);
     }
@@ -213,6 +216,14 @@ fn free_stress(ctx: &mut Ctx, prop: &'static str, classes: &'static [&'static st
         case.spaced = r.gen_bool(0.2);
         case.no_tail = r.gen_bool(0.25);
         case.stale_ext = matches!(case.mode, Mode::InMemoryBuild) && r.gen_bool(0.5);
+        if r.gen_bool(0.2) {
+            case.prior = Some((mask, r.gen_range(1..(1u64 << n))));
+        }
+        if matches!(case.mode, Mode::InMemoryBuild) && r.gen_bool(0.3) {
+            case.empty_leaves = true;
+            case.markers = false;
+            case.stale = r.gen_bool(0.5);
+        }
         if !acyclic_only && r.gen_bool(0.15) {
             // an error result arrives while many other tasks are still queued or running: the run
             // must still return (with the error)
@@ -314,6 +325,11 @@ fn run_c02(ctx: &mut Ctx) {
         case.dup_edges = r.gen_bool(0.3);
         case.spaced = r.gen_bool(0.25);
         case.no_tail = r.gen_bool(0.25);
+        match r.gen_range(0..6) {
+            0 => case.outside = true,
+            1 => case.stale_link = true,
+            _ => {}
+        }
         if r.gen_bool(0.25) {
             case.mode = Mode::InMemoryBuild;
             case.stale_ext = r.gen_bool(0.7);
@@ -417,6 +433,25 @@ fn run_c02(ctx: &mut Ctx) {
                         if style == 4 && k % 4 == 1 {
                             case.linked = true;
                             case.subdirs = false;
+                        }
+                        // an earlier revision built in the same process and directory, in which some
+                        // files were still hand-written (no .txtpp source)
+                        if k % 6 == 5 && !case.linked {
+                            case.prior = Some((mask, (k / 6) % ((1u64 << n) - 1) + 1));
+                        }
+                        // named inputs: odd files outside the base directory; stale outputs that are
+                        // symbolic links to copies kept elsewhere
+                        if style == 0 && n >= 2 && k % 5 == 1 && !matches!(case.mode, Mode::Verify) {
+                            case.outside = true;
+                            case.subdirs = false;
+                            case.prior = None;
+                        }
+                        if style == 0 && k % 5 == 3 && case.stale && !case.outside && !case.subdirs {
+                            case.stale_link = true;
+                        }
+                        if matches!(case.mode, Mode::InMemoryBuild) && k % 15 == 5 && !case.markers {
+                            case.empty_leaves = true;
+                            case.stale = k % 30 == 5;
                         }
                         if !dfs_case(ctx, "C02", C02_CLASSES, &case, cap, true, edge_count(mask) > 0) {
                             break 'all;
@@ -549,6 +584,18 @@ fn digraph_enumeration(ctx: &mut Ctx, prop: &'static str, classes: &'static [&'s
                         // the requested directory holds only symbolic links to the sources
                         case.linked = true;
                         case.subdirs = false;
+                    }
+                    if style != 9 && style != 8 && k % 6 == 5 && !case.linked {
+                        // an earlier, possibly cycle-free revision built in the same process and
+                        // directory: some files were hand-written then, edges may have been added since
+                        let earlier = if k % 12 == 5 { mask } else { mask & 0b101_110_011 & ((1u64 << (n * n)) - 1) };
+                        case.prior = Some((earlier, (k / 6) % ((1u64 << n) - 1) + 1));
+                    }
+                    if style != 9 && style != 8 && k % 8 == 6 && !case.markers {
+                        // only-if-needed mode over empty outputs that do not exist yet
+                        case.mode = Mode::InMemoryBuild;
+                        case.empty_leaves = true;
+                        case.stale = k % 16 == 6;
                     }
                     let nontrivial = if cyclic_only_nontrivial { cyclic } else { n >= 2 || style >= 3 };
                     if !dfs_case(ctx, prop, classes, &case, cap, true, nontrivial) {
